@@ -119,6 +119,41 @@ def run(rep: Report, prog: Program, tier: str) -> None:
                     rep.fail(mk_finding(prog, PROP, "C07-EXT", get_f, get_f.node,
                                         f"{desc}: written as {res[1].hex() if isinstance(res[1], bytes) else res}, read back as {show(back)}", construct=f"extmap {desc}"))
 
+    # several maps in one process (one per transport, plus the default map of RtpPacket.parse / serialize): each one only knows the ids it was configured with
+    cfg_f = prog.func("rtp.HeaderExtensionsMap.configure")
+    URI = {"mid": "urn:ietf:params:rtp-hdrext:sdes:mid", "audio_level": "urn:ietf:params:rtp-hdrext:ssrc-audio-level",
+           "abs_send_time": "http://www.webrtc.org/experiments/rtp-hdrext/abs-send-time",
+           "transport_sequence_number": "http://www.ietf.org/id/draft-holmer-rmcat-transport-wide-cc-extensions-01"}
+
+    def configured(assign):
+        mp = new(prog, hook, "rtp.HeaderExtensionsMap")
+        hook.run_method(cfg_f, mp, [SimpleNamespace(headerExtensions=[SimpleNamespace(id=i, uri=URI[k]) for k, i in assign.items()])], {})
+        return mp
+    try:
+        map_a = configured({"mid": 1, "audio_level": 2})
+        map_b = configured({"abs_send_time": 1, "transport_sequence_number": 2, "mid": 3})
+        fresh = new(prog, hook, "rtp.HeaderExtensionsMap")
+        vals = new(prog, hook, "rtp.HeaderExtensions")
+        vals.abs_send_time, vals.transport_sequence_number, vals.mid = 0x010203, 515, "vid"
+        res = safely(hook.run_method, set_f, map_b, [vals], {})
+        back_b = safely(hook.run_method, get_f, map_b, list(res), {}) if not isinstance(res, str) else res
+        back_fresh = safely(hook.run_method, get_f, fresh, list(res), {}) if not isinstance(res, str) else res
+        vals_a = new(prog, hook, "rtp.HeaderExtensions")
+        vals_a.mid, vals_a.audio_level = "aud", (True, 30)
+        res_a = safely(hook.run_method, set_f, map_a, [vals_a], {})
+        back_a = safely(hook.run_method, get_f, map_a, list(res_a), {}) if not isinstance(res_a, str) else res_a
+    except Unknown as u:
+        raise AnalysisError(f"C07-EXT: cannot evaluate HeaderExtensionsMap.configure: {u}")
+    empty = new(prog, hook, "rtp.HeaderExtensions")
+    for desc, got_, want_ in (("map B (abs-send-time=1, transport-cc=2, mid=3) configured after map A (mid=1, audio-level=2)", back_b, vals),
+                              ("map A (mid=1, audio-level=2) after map B was configured", back_a, vals_a),
+                              ("a map that was never configured reading map B's extensions", back_fresh, empty)):
+        if isinstance(got_, SimpleNamespace) and same(got_, want_):
+            rep.ok("C07-EXT", f"extmap independence: {desc}", sample="values read back with the map's own id table")
+        else:
+            rep.fail(mk_finding(prog, PROP, "C07-EXT", cfg_f, cfg_f.node, f"{desc}: read back {show(got_) if not isinstance(got_, str) else got_}, expected {show(want_)}: "
+                                "the id tables of different maps are not independent", construct="extmap independence"))
+
     # ---------------- C07-NACK
     rep.rule("C07-NACK", "generic NACK sets", min_instances=8)
     fb = prog.func("rtp.RtcpRtpfbPacket.__bytes__")
